@@ -370,6 +370,77 @@ fn run_vectors(rep: &mut Rep, n: usize, seed: u64, nq: usize, threads: &[usize],
     }
 }
 
+/// long structures with one sparse symbol: selects on it cross many superblocks between two select
+/// samples (where a search cursor / hint cache would live)
+fn run_sparse_select(rep: &mut Rep, n: usize, seed: u64, nq: usize, threads: &[usize], rounds: usize) {
+    let mut rng = Rng::new(seed);
+    // symbol 3 with density 1/64, clustered unevenly; the rest uniform over 0..3
+    let quads: Vec<u8> = (0..n).map(|i| if rng.below(64) == 0 || (i / 4096) % 7 == 3 && rng.below(6) == 0 { 3 } else { rng.below(3) as u8 }).collect();
+    let qm = QuadModel::new(quads.clone());
+    let c3 = qm.occs(3);
+    let qseed = rng.u64();
+    macro_rules! sparse_plan {
+        ($ty:ty, $name:expr) => {{
+            let q = <$ty>::new(&quads);
+            let bytes0 = q.ser().unwrap_or_default();
+            let mut r = Rng::new(qseed);
+            // mostly selects of the sparse symbol, in short runs of consecutive indices
+            let qs: Vec<(u8, u8, usize)> = run_queries(&mut r, nq, 8, c3 + 2).into_iter().map(|(k, i)| if k < 6 { (1u8, 3u8, i) } else { (k % 3, (i % 4) as u8, i % (n + 2)) }).collect();
+            for &(kind, s, i) in qs.iter().take(300) {
+                if kind == 1 {
+                    chk!(rep, "select", ($name, s, i), Exp::Is(qm.select(s, i)), q.select_(s, i));
+                }
+            }
+            let p = Plan {
+                name: $name.to_string(),
+                s: &q,
+                nq,
+                eval: Box::new(move |q: &$ty, k: usize| {
+                    let (kind, s, i) = qs[k];
+                    match kind {
+                        0 => opt(q.rank_(s, i)),
+                        1 => opt(q.select_(s, i)),
+                        _ => q.get_(i).map(|x| x as u128).unwrap_or(u128::MAX),
+                    }
+                }),
+                ser: Box::new(|q: &$ty| q.ser().unwrap_or_default()),
+                bytes0,
+            };
+            monitor_plan(rep, &p, threads, rounds, seed);
+        }};
+    }
+    sparse_plan!(qwt::RSQVector256, "RSQVector256[sparse symbol]");
+    sparse_plan!(qwt::RSQVector512, "RSQVector512[sparse symbol]");
+    // the same shape inside a wavelet tree: a 2-level tree whose level-0 digit 3 is sparse
+    {
+        let data: Vec<u8> = quads.iter().map(|&d| d * 4 + (rng.below(4) as u8)).collect();
+        let m = SeqModel::new(data.iter().map(|&x| x as u128).collect());
+        let t = qwt::QWT256::<u8>::from(data);
+        let bytes0 = t.ser().unwrap_or_default();
+        let mut r = Rng::new(qseed ^ 9);
+        let qs: Vec<(u8, usize)> = run_queries(&mut r, nq, 4, c3 / 4 + 2);
+        let syms: Vec<u8> = vec![12, 13, 14, 15, 0, 5];
+        for &(kind, i) in qs.iter().take(200) {
+            let c = syms[kind as usize % syms.len()];
+            chk!(rep, "select", ("QWT256<u8>[sparse digit]", c, i), Exp::Is(m.select(c as u128, i)), t.select_(c, i));
+        }
+        let p = Plan {
+            name: "QWT256<u8>[sparse digit]".to_string(),
+            s: &t,
+            nq,
+            eval: Box::new(move |t: &qwt::QWT256<u8>, k: usize| {
+                let (kind, i) = qs[k];
+                let c = syms[kind as usize % syms.len()];
+                opt(t.select_(c, i))
+            }),
+            ser: Box::new(|t: &qwt::QWT256<u8>| t.ser().unwrap_or_default()),
+            bytes0,
+        };
+        monitor_plan(rep, &p, threads, rounds, seed);
+    }
+    rep.gate_max("max_sparse_symbol_occurrences", c3 as u64);
+}
+
 /// batches interleaved over several live structures (catches keyed global caches)
 fn run_interleaved(rep: &mut Rep, seed: u64, n: usize, nq: usize) {
     let mut rng = Rng::new(seed);
@@ -462,6 +533,15 @@ fn cases(cfg: &Cfg) -> Vec<Case> {
         let desc = J::obj().set("n", n).set("seed", seed).set("queries", nq).set("threads", format!("{:?}", threads)).set("rounds", rounds);
         out.push(Case::new("RSQVector256/512, RSNarrow, RSWide, DArray<true>, BitVector", "vectors", desc, (n as u64 + nq as u64 * 20) * rounds as u64 * 7, move |rep: &mut Rep| {
             run_vectors(rep, n, seed, nq, &threads, rounds)
+        }));
+    }
+    if !tiny {
+        let seed = rng.u64();
+        let threads = threads.clone();
+        let big_n = if cfg.scale == Scale::Full { 600_000 } else { 400_000 };
+        let desc = J::obj().set("n", big_n).set("seed", seed).set("queries", nq).set("threads", format!("{:?}", threads)).set("rounds", rounds);
+        out.push(Case::new("RSQVector256/512, QWT256 with one sparse symbol", "sparse_select", desc, (big_n as u64 + nq as u64 * 40) * rounds as u64 * 3, move |rep: &mut Rep| {
+            run_sparse_select(rep, big_n, seed, nq, &threads, rounds)
         }));
     }
     {
